@@ -57,7 +57,7 @@ def generate(st):
         'params': params, 'on': on, 'defaults': explicit_defaults,
         'if_none': sw.random() < 0.25, 'include_inputs': sw.random() < 0.15,
         'keys_int': sw.random() < 0.4,
-        'n_days': sw.choice([1, 2, 3, 4, 5, 6, 8, 12]),
+        'n_days': sw.choice([1, 2, 3, 4, 5, 6, 8, 12] + ([20, 30] if getattr(st, 'deep', False) else [])),
         'faulty': sw.random() < 0.6,
         'origin': sw.choice(ORIGINS),
         'p_scalar': sw.choice([0.0, 0.2, 0.5, 1.0]) if n_params > 1 else sw.choice([0.0, 0.3]),
@@ -156,7 +156,7 @@ def generate(st):
                 data = f.choice(['omit', 'none'])
             elif r < 0.45 and prev_keys:
                 loss = [k for k in prev_keys if f.random() < 0.4]
-        ops.append({'op': 'call', 'inputs': inputs, 'expiry': expiry, 'data': data, 'loss': loss})
+        ops.append({'op': 'call', 'inputs': inputs, 'expiry': expiry, 'data': data, 'loss': loss, 'also_join': g.random() < 0.3})
         # the generator cannot know the join result without the model; approximate prev_keys by all table keys
         prev_keys = cand
     return {'prop': PROP, 'cfg': cfg, 'ops': ops}
@@ -340,6 +340,36 @@ def execute(trace, ctx=None):
             mrows = model_join(on, minputs, {kk: vv for kk, vv in jdefaults.items() if kk in minputs})
             if mrows is not None and any(not all(c in kd for c in on) for kd, _ in mrows):
                 continue        # a key column no table provides: outside what is generated
+            # ---- the join itself, called directly (the statement names join(inputs, on, defaults) explicitly)
+            if op.get('also_join') and has_table:
+                from pyg_base import join as _join
+                jin = {nm: (call[nm].copy() if is_dictable_like(call[nm]) else call[nm]) for nm in call}
+                jd = {kk: vv for kk, vv in jdefaults.items()}
+                jt = lib(lambda: _join(jin, on=list(on), defaults=dict(jd)), 'join(%s)' % sorted(jin))
+                res.probe('join-called-directly')
+                if mrows is not None:
+                    if not is_dictable_like(jt):
+                        raise Violation('join-keys', 'join returned %s' % type(jt).__name__, k)
+                    jrows = list(jt)
+                    if not mrows:
+                        if len(jrows):
+                            raise Violation('join-keys', 'join of inputs without a common key returned %d rows' % len(jrows), k)
+                    else:
+                        jk = [tuple(r[c] for c in on) for r in jrows]
+                        ek = [tuple(kd[c] for c in on) for kd, _ in mrows]
+                        if sorted(jk) != sorted(ek):
+                            raise Violation('join-keys', 'join rows %s, expected keys %s' % (jk, ek), k)
+                        if jk not in [sorted(jk, key=lambda t: tuple(t[on.index(c)] for c in perm)) for perm in itertools.permutations(on)]:
+                            raise Violation('not-sorted', 'join rows are not sorted by key: %s' % jk, k)
+                        want = {tuple(kd[c] for c in on): vals for kd, vals in mrows}
+                        for r, kt in zip(jrows, jk):
+                            for nm in call:
+                                if r.get(nm, '<absent>') != want[kt].get(nm, '<absent>'):
+                                    raise Violation('join-values', 'join row %s has %s=%r, expected %r' % (kt, nm, r.get(nm, '<absent>'), want[kt].get(nm)), k)
+                # join must not alter its inputs
+                for nm in call:
+                    if is_dictable_like(call[nm]) and dict(jin[nm]) != dict(call[nm]):
+                        raise Violation('join-altered-input', 'join changed its input table %s' % nm, k)
             # ---- previously computed data
             supplied = {}
             data_mode = op.get('data', 'omit')
@@ -615,7 +645,7 @@ def signature(trace, violation):
 
 
 PROBES = ['row-frozen', 'row-recomputed-over-previous-value', 'state-loss-recompute', 'clock-at-midnight-edge', 'default-extends-or-fills',
-          'scalar-only-call', 'empty-join', 'dict-output-call', 'expiry-equals-today(either outcome accepted)', 'call-after-backward-jump',
+          'scalar-only-call', 'empty-join', 'dict-output-call', 'join-called-directly', 'expiry-equals-today(either outcome accepted)', 'call-after-backward-jump',
           'expired-without-previous-value-recomputed']
 TIERS = {'quick': {'runs': 12000, 'wallcap': 50}, 'thorough': {'runs': 500000, 'wallcap': 800}}
 COMPONENTS = {
